@@ -326,6 +326,7 @@ def parse_values(model_text):
 def solve_many(jobs, timeout=10, workers=16, all_solvers=False):
     """jobs: list of (key, text, want_values) -> dict key -> Result"""
     out = {}
+    workers = int(os.environ.get('VERIF_WORKERS', workers))
     with concurrent.futures.ThreadPoolExecutor(max_workers=workers) as ex:
         futs = {ex.submit(solve_text, text, str(key), timeout, wv, all_solvers): key for key, text, wv in jobs}
         for f in concurrent.futures.as_completed(futs):
